@@ -238,7 +238,7 @@ func propTable() map[string]*PropSpec {
 			if _, ok := params["shape"]; !ok && (h == "C20_ViewChange" || h == "C20_NewView") {
 				params["shape"] = 0
 			}
-			for _, k := range []string{"idlen", "hashlen", "prepares", "proof", "votes", "proofmask", "commits", "shape"} {
+			for _, k := range []string{"idlen", "hashlen", "prepares", "proof", "votes", "proofmask", "commits", "shape", "nopp"} {
 				if v, ok := params[k]; ok {
 					name += fmt.Sprintf("/%s=%d", k, v)
 				}
@@ -296,6 +296,12 @@ func propTable() map[string]*PropSpec {
 				th = append(th, c, c2)
 				q = append(q, c, c2)
 			}
+		}
+		// NEW_VIEW with a block and without an embedded PREPREPARE (the factory builds it)
+		for _, votes := range []int{0, 2} {
+			c := mk("C20_NewView", map[string]int{"idlen": 1, "hashlen": 2, "votes": votes, "prepares": 0, "proofmask": 0, "nopp": 1}, "C20.NV.done")
+			th = append(th, c)
+			q = append(q, c)
 		}
 		for commits := 1; commits <= 4; commits++ {
 			for _, il := range []int{1, 2, 5} {
